@@ -146,3 +146,24 @@ CHECKS["C03"] = {
         for n in ["FuzzServerBytes", "FuzzClientBytes", "FuzzURI", "FuzzCookie", "FuzzArgs", "FuzzRange", "FuzzTrailer", "FuzzMultipart"]
     ],
 }
+
+CHECKS["C04"] = {
+    "pkg": "props/c04",
+    "level": "exploration",
+    "rule": "A case is a connection of 1..5 requests (GET/HEAD/POST/PUT/OPTIONS, HTTP/1.1 or 1.0 with/without keep-alive, optional close), each answered by a generated handler program: status from {100,101,102,199,200,201,204,205,206,301,304,400,404,500,599} set before or after the body call; 0..4 headers via ctx.Header/Header.Set/Header.Add; "
+            "body mode in {none, SetBodyString, SetBody, repeated ctx.Write, repeated AppendBody, SetBodyStream(known length), SetBodyStream(-1), SetBodyStream(LimitedReader,-1), hijacked chunked writer with arbitrary Write/Flush pattern}; sizes centred on 4 KiB/8 KiB/64 KiB; stream readers delivering arbitrary piece sizes; optional trailers and SetConnectionClose. "
+            "grid unit: exhaustive status x mode x method x protocol x size class x status-before/after, each followed by a second response. Non-trivial = stream/chunked-writer body, or a body set on a bodiless status/HEAD; distinct by FNV-64 of the case.",
+    "assumptions": [
+        "documented exclusion: the hijacked chunked writer is not installed when (method, status) forbids a body; with it, status and headers are set before the first Write",
+        "stream readers deliver exactly the declared number of bytes and never (0, nil); header values are non-empty (setting an empty value is a deletion in this API)",
+        "default headers hertz adds (Server, Date, Content-Type) are ignored; the presence of Connection: close is not asserted (only that nothing follows and the connection is closed)",
+    ],
+    "level_text": "Random + grid exploration decoded by two independent clients (own strict RFC 7230 response reader and net/http.ReadResponse): both must yield exactly the programmed status, headers and body for every response of the connection, with nothing between or after the messages.",
+    "level_note": "Trusts wire's strict reader and Go's net/http as decoders; standard transport over a scripted connection.",
+    "technique": "property-based testing (rapid) over handler programs + exhaustive grid, differential decoding by two independent HTTP clients",
+    "nontrivial_floor": 500,
+    "units": [
+        {"name": "grid", "run": "^TestC04Grid$", "kind": "plain", "shards": 8},
+        {"name": "programs", "run": "^TestC04Programs$", "kind": "rapid", "checks": {"quick": 8000, "thorough": 160000}, "shards": {"quick": 8, "thorough": 16}},
+    ],
+}
